@@ -13,7 +13,7 @@ Scratch directories are removed at the end.
 import json, os, shutil, subprocess, sys, time, argparse, glob
 
 ROOT = os.path.dirname(os.path.dirname(os.path.abspath(__file__)))
-SCRATCH = "/tmp/sqldt-seed"
+SCRATCH = os.environ.get("SEED_SCRATCH", "/tmp/sqldt-seed")
 ALL = ["C%02d" % i for i in range(1, 20)]
 
 def sh(cmd, cwd=None, timeout=7200, env=None):
